@@ -1,4 +1,5 @@
 import Pdpy11.Model.Defs
+import Pdpy11.Model.Thunk
 import Pdpy11.Props.C11
 import Pdpy11.Props.C12
 /-
@@ -468,3 +469,433 @@ theorem lazy_value_order_independent (env : Var → Int) (σ₁ σ₂ : Known)
   ⟨waitP_deterministic env σ₁ σ₂ h1 h2 f₁ f₂ p k₁ k₂ e1 e2, (waitP_sound env σ₁ h1 f₁ p k₁ e1).symm⟩
 
 end Pdpy11.Props.C03
+
+/-! ## `deferred.Deferred`: remembered values and remembered give-ups (Model.Thunk) -/
+
+namespace Pdpy11.Props.C03.Memo
+open Pdpy11.Model.Thunk
+
+/-- same promises, same bodies, same epoch: the memories may differ -/
+def SameMeaning (s s' : Store) : Prop :=
+  s'.promises = s.promises ∧ s'.thunks.map (·.fn) = s.thunks.map (·.fn) ∧ s'.epoch = s.epoch
+
+theorem SameMeaning.refl (s : Store) : SameMeaning s s := ⟨rfl, rfl, rfl⟩
+theorem SameMeaning.trans {a b c : Store} (h1 : SameMeaning a b) (h2 : SameMeaning b c) : SameMeaning a c :=
+  ⟨h2.1.trans h1.1, h2.2.1.trans h1.2.1, h2.2.2.trans h1.2.2⟩
+
+theorem fn_of_same {s s' : Store} (h : SameMeaning s s') (j : Nat) :
+    (s'.thunks[j]?).map (·.fn) = (s.thunks[j]?).map (·.fn) := by
+  have := congrArg (fun l => l[j]?) h.2.1
+  simpa [List.getElem?_map] using this
+
+theorem plain_same {s s' : Store} (h : SameMeaning s s') (f : Nat) (e : E) : evalPlain s' f e = evalPlain s f e := by
+  induction f generalizing e with
+  | zero => rfl
+  | succ f ih =>
+    cases e with
+    | lit k => rfl
+    | prom i => simp [evalPlain, promVal, h.1]
+    | thunk j =>
+      simp only [evalPlain]
+      have hj := fn_of_same h j
+      cases h1 : s'.thunks[j]? with
+      | none => cases h2 : s.thunks[j]? with
+        | none => rfl
+        | some t => rw [h1, h2] at hj; cases hj
+      | some t' => cases h2 : s.thunks[j]? with
+        | none => rw [h1, h2] at hj; cases hj
+        | some t =>
+          rw [h1, h2] at hj
+          have : t'.fn = t.fn := by simpa using hj
+          simp [this, ih]
+    | add a b => simp [evalPlain, ih]
+
+/-- more fuel never changes a result that is not "out of fuel" -/
+theorem plain_mono (s : Store) (f : Nat) (e : E) (r : Res) (h : evalPlain s f e = r) (hr : r ≠ .fuel) :
+    evalPlain s (f + 1) e = r := by
+  induction f generalizing e r with
+  | zero => simp [evalPlain] at h; exact absurd h.symm hr
+  | succ f ih =>
+    cases e with
+    | lit k => simpa [evalPlain] using h
+    | prom i => simpa [evalPlain] using h
+    | thunk j =>
+      simp only [evalPlain] at h ⊢
+      cases hj : s.thunks[j]? with
+      | none => simpa [hj] using h
+      | some t => rw [hj] at h; simp only at h ⊢; exact ih _ _ h hr
+    | add a b =>
+      simp only [evalPlain] at h
+      rw [show evalPlain s (f + 1 + 1) (.add a b) = (match evalPlain s (f + 1) a with
+        | .value x => (match evalPlain s (f + 1) b with
+          | .value y => .value (x + y)
+          | r => r)
+        | r => r) from rfl]
+      cases ha : evalPlain s f a with
+      | fuel => rw [ha] at h; exact absurd h.symm hr
+      | notReady => rw [ha] at h; rw [ih a _ ha (by simp)]; exact h
+      | value x =>
+        rw [ha] at h; rw [ih a _ ha (by simp)]
+        simp only at h ⊢
+        cases hb : evalPlain s f b with
+        | fuel => rw [hb] at h; exact absurd h.symm hr
+        | notReady => rw [hb] at h; rw [ih b _ hb (by simp)]; exact h
+        | value y => rw [hb] at h; rw [ih b _ hb (by simp)]; exact h
+
+theorem plain_mono_le (s : Store) (f g : Nat) (e : E) (r : Res) (h : evalPlain s f e = r) (hr : r ≠ .fuel) (hfg : f ≤ g) :
+    evalPlain s g e = r := by
+  induction g with
+  | zero => have : f = 0 := by omega
+            subst this; exact h
+  | succ g ih =>
+    by_cases hle : f ≤ g
+    · exact plain_mono s g e r (ih hle) hr
+    · have : f = g + 1 := by omega
+      subst this; exact h
+
+/-- the meaning is a function: two runs with any amounts of fuel cannot give two different answers -/
+theorem plain_unique (s : Store) (f g : Nat) (e : E) (r1 r2 : Res) (h1 : evalPlain s f e = r1) (h2 : evalPlain s g e = r2)
+    (n1 : r1 ≠ .fuel) (n2 : r2 ≠ .fuel) : r1 = r2 := by
+  have a := plain_mono_le s f (max f g) e r1 h1 n1 (Nat.le_max_left _ _)
+  have b := plain_mono_le s g (max f g) e r2 h2 n2 (Nat.le_max_right _ _)
+  rw [a] at b; exact b
+
+def NoValue (s : Store) (e : E) : Prop := ∀ f k, evalPlain s f e ≠ .value k
+
+/-- what the two memories of every thunk must say -/
+def Inv (s : Store) : Prop :=
+  ∀ (j : Nat) (t : Th), s.thunks[j]? = some t →
+    (∀ v, t.value = some v → ∃ f, evalPlain s f t.fn = .value v) ∧
+    (t.nrEpoch = some s.epoch → NoValue s t.fn) ∧
+    (∀ ep, t.nrEpoch = some ep → ep ≤ s.epoch)
+
+
+theorem same_setThunk (s : Store) (j : Nat) (t t' : Th) (hj : s.thunks[j]? = some t) (hfn : t'.fn = t.fn) :
+    SameMeaning s (setThunk s j t') := by
+  refine ⟨rfl, ?_, rfl⟩
+  simp only [setThunk]
+  apply List.ext_getElem?
+  intro n
+  simp only [List.getElem?_map, List.getElem?_set]
+  by_cases h : j = n
+  · subst h
+    simp only [↓reduceIte]
+    split
+    · simp [hj, hfn]
+    · rename_i hlt
+      have : j < s.thunks.length := by
+        have := List.getElem?_eq_some_iff.mp hj
+        exact this.1
+      exact absurd this hlt
+  · simp [h]
+
+theorem noValue_same {s s' : Store} (h : SameMeaning s s') (e : E) (hn : NoValue s e) : NoValue s' e := by
+  intro f k; rw [plain_same h]; exact hn f k
+
+theorem inv_setThunk (s : Store) (j : Nat) (t t' : Th) (hI : Inv s) (hj : s.thunks[j]? = some t) (hfn : t'.fn = t.fn)
+    (hv : ∀ v, t'.value = some v → ∃ f, evalPlain s f t'.fn = .value v)
+    (hn : t'.nrEpoch = some s.epoch → NoValue s t'.fn)
+    (he : ∀ ep, t'.nrEpoch = some ep → ep ≤ s.epoch) : Inv (setThunk s j t') := by
+  have hs := same_setThunk s j t t' hj hfn
+  intro j' t'' hj'
+  have hep : (setThunk s j t').epoch = s.epoch := rfl
+  simp only [setThunk, List.getElem?_set] at hj'
+  by_cases h : j = j'
+  · subst h
+    simp only [↓reduceIte] at hj'
+    split at hj'
+    · cases hj'
+      refine ⟨?_, ?_, ?_⟩
+      · intro v hvv; obtain ⟨f, hf⟩ := hv v hvv; exact ⟨f, by rw [plain_same hs]; exact hf⟩
+      · intro hne; rw [hep] at hne; exact noValue_same hs _ (hn hne)
+      · intro ep h1; rw [hep]; exact he ep h1
+    · cases hj'
+  · simp only [h, ↓reduceIte] at hj'
+    obtain ⟨a, b, c⟩ := hI j' t'' hj'
+    refine ⟨?_, ?_, ?_⟩
+    · intro v hvv; obtain ⟨f, hf⟩ := a v hvv; exact ⟨f, by rw [plain_same hs]; exact hf⟩
+    · intro hne; rw [hep] at hne; exact noValue_same hs _ (b hne)
+    · intro ep h1; rw [hep]; exact c ep h1
+
+theorem thunk_of_same {s s1 : Store} (h : SameMeaning s s1) (j : Nat) (t : Th) (hj : s.thunks[j]? = some t) :
+    ∃ t1, s1.thunks[j]? = some t1 ∧ t1.fn = t.fn := by
+  have := fn_of_same h j
+  rw [hj] at this
+  cases h1 : s1.thunks[j]? with
+  | none => rw [h1] at this; cases this
+  | some t1 => rw [h1] at this; exact ⟨t1, rfl, by simpa using this⟩
+
+/-- **the two memories never lie**: whatever `Deferred._wait` answers with its remembered values
+and its remembered give-ups, the engine without any memory answers too; and the memories stay
+truthful afterwards -/
+theorem memo_sound (f : Nat) : ∀ (s : Store) (e : E), Inv s →
+    SameMeaning s (evalMemo s f e).2 ∧ Inv (evalMemo s f e).2 ∧
+    (∀ k, (evalMemo s f e).1 = .value k → ∃ g, evalPlain s g e = .value k) ∧
+    ((evalMemo s f e).1 = .notReady → NoValue s e) := by
+  induction f with
+  | zero => intro s e hI; exact ⟨SameMeaning.refl s, hI, by simp [evalMemo], by simp [evalMemo]⟩
+  | succ f ih =>
+    intro s e hI
+    cases e with
+    | lit k =>
+      refine ⟨SameMeaning.refl s, hI, ?_, by simp [evalMemo]⟩
+      intro k' h; simp [evalMemo] at h; subst h; exact ⟨1, rfl⟩
+    | prom i =>
+      simp only [evalMemo]
+      cases hp : promVal s i with
+      | none =>
+        refine ⟨SameMeaning.refl s, hI, by simp, ?_⟩
+        intro _ g k
+        cases g with
+        | zero => simp [evalPlain]
+        | succ g => simp [evalPlain, hp]
+      | some v =>
+        refine ⟨SameMeaning.refl s, hI, ?_, by simp⟩
+        intro k h; simp at h; subst h; exact ⟨1, by simp [evalPlain, hp]⟩
+    | thunk j =>
+      simp only [evalMemo]
+      cases hj : s.thunks[j]? with
+      | none =>
+        refine ⟨SameMeaning.refl s, hI, by simp, ?_⟩
+        intro _ g k
+        cases g with
+        | zero => simp [evalPlain]
+        | succ g => simp [evalPlain, hj]
+      | some t =>
+        obtain ⟨tv, tn, te⟩ := hI j t hj
+        simp only
+        cases hval : t.value with
+        | some v =>
+          refine ⟨SameMeaning.refl s, hI, ?_, by simp⟩
+          intro k h; simp at h; subst h
+          obtain ⟨g, hg⟩ := tv v hval
+          exact ⟨g + 1, by simp [evalPlain, hj, hg]⟩
+        | none =>
+          simp only
+          split
+          · rename_i hne
+            refine ⟨SameMeaning.refl s, hI, by simp, ?_⟩
+            intro _ g k
+            cases g with
+            | zero => simp [evalPlain]
+            | succ g => simp only [evalPlain, hj]; exact tn hne g k
+          · obtain ⟨hs1, hI1, hv1, hn1⟩ := ih s t.fn hI
+            generalize hres : evalMemo s f t.fn = res at *
+            obtain ⟨r, s1⟩ := res
+            simp only at hs1 hI1 hv1 hn1 ⊢
+            obtain ⟨t1, ht1, hfn1⟩ := thunk_of_same hs1 j t hj
+            cases r with
+            | fuel => exact ⟨hs1, hI1, by simp, by simp⟩
+            | value v =>
+              simp only [ht1, Option.getD_some]
+              obtain ⟨a1, b1, c1⟩ := hI1 j t1 ht1
+              obtain ⟨g, hg⟩ := hv1 v rfl
+              have hset := same_setThunk s1 j t1 { t1 with value := some v } ht1 rfl
+              refine ⟨hs1.trans hset, ?_, ?_, by simp⟩
+              · refine inv_setThunk s1 j t1 { t1 with value := some v } hI1 ht1 rfl ?_ ?_ ?_
+                · intro v' hv'
+                  simp at hv'; subst hv'
+                  exact ⟨g, by rw [plain_same hs1, hfn1]; exact hg⟩
+                · exact b1
+                · exact c1
+              · intro k h; simp at h; subst h
+                exact ⟨g + 1, by simp [evalPlain, hj, hg]⟩
+            | notReady =>
+              simp only [ht1, Option.getD_some]
+              obtain ⟨a1, b1, c1⟩ := hI1 j t1 ht1
+              have hnv := hn1 rfl
+              have hset := same_setThunk s1 j t1 { t1 with nrEpoch := some s1.epoch } ht1 rfl
+              refine ⟨hs1.trans hset, ?_, by simp, ?_⟩
+              · refine inv_setThunk s1 j t1 { t1 with nrEpoch := some s1.epoch } hI1 ht1 rfl ?_ ?_ ?_
+                · exact a1
+                · intro _; simp only; rw [hfn1]; exact noValue_same hs1 _ hnv
+                · intro ep h; simp at h; omega
+              · intro _ g k
+                cases g with
+                | zero => simp [evalPlain]
+                | succ g => simp only [evalPlain, hj]; exact hnv g k
+    | add a b =>
+      simp only [evalMemo]
+      obtain ⟨hs1, hI1, hv1, hn1⟩ := ih s a hI
+      generalize hres : evalMemo s f a = res at *
+      obtain ⟨r, s1⟩ := res
+      simp only at hs1 hI1 hv1 hn1 ⊢
+      have noval_left : NoValue s a → NoValue s (.add a b) := by
+        intro hn g k
+        cases g with
+        | zero => simp [evalPlain]
+        | succ g =>
+          simp only [evalPlain]
+          cases ha : evalPlain s g a with
+          | value x => exact absurd ha (hn g x)
+          | notReady => simp
+          | fuel => simp
+      cases r with
+      | fuel => exact ⟨hs1, hI1, by simp, by simp⟩
+      | notReady => exact ⟨hs1, hI1, by simp, fun _ => noval_left (hn1 rfl)⟩
+      | value x =>
+        simp only
+        obtain ⟨hs2, hI2, hv2, hn2⟩ := ih s1 b hI1
+        generalize hres2 : evalMemo s1 f b = res2 at *
+        obtain ⟨r2, s2⟩ := res2
+        simp only at hs2 hI2 hv2 hn2 ⊢
+        obtain ⟨ga, hga⟩ := hv1 x rfl
+        cases r2 with
+        | fuel => exact ⟨hs1.trans hs2, hI2, by simp, by simp⟩
+        | notReady =>
+          refine ⟨hs1.trans hs2, hI2, by simp, ?_⟩
+          intro _ g k
+          have hnb : NoValue s b := by
+            intro g' k'; rw [← plain_same hs1]; exact hn2 rfl g' k'
+          cases g with
+          | zero => simp [evalPlain]
+          | succ g =>
+            simp only [evalPlain]
+            cases ha : evalPlain s g a with
+            | value x' =>
+              simp only
+              cases hb : evalPlain s g b with
+              | value y => exact absurd hb (hnb g y)
+              | notReady => simp
+              | fuel => simp
+            | notReady => simp
+            | fuel => simp
+        | value y =>
+          refine ⟨hs1.trans hs2, hI2, ?_, by simp⟩
+          intro k h; simp at h; subst h
+          obtain ⟨gb, hgb⟩ := hv2 y rfl
+          rw [plain_same hs1] at hgb
+          refine ⟨max ga gb + 1, ?_⟩
+          simp only [evalPlain]
+          rw [plain_mono_le s ga _ a _ hga (by simp) (Nat.le_max_left _ _),
+              plain_mono_le s gb _ b _ hgb (by simp) (Nat.le_max_right _ _)]
+
+
+/-! ### settling a promise -/
+
+theorem promVal_settle_other (s : Store) (i : Nat) (k : Int) (i' : Nat) (x : Int) (hu : promVal s i = none)
+    (h : promVal s i' = some x) : promVal (settle s i k) i' = some x := by
+  have hne : i ≠ i' := by intro e; subst e; rw [hu] at h; cases h
+  simp only [promVal, settle, List.getElem?_set, hne, ↓reduceIte] at h ⊢
+  exact h
+
+/-- a value, once it exists, survives every later settlement (promises are settled once) -/
+theorem plain_settle_value (s : Store) (i : Nat) (k : Int) (hu : promVal s i = none) (f : Nat) (e : E) (v : Int)
+    (h : evalPlain s f e = .value v) : evalPlain (settle s i k) f e = .value v := by
+  induction f generalizing e v with
+  | zero => simp [evalPlain] at h
+  | succ f ih =>
+    cases e with
+    | lit x => simpa [evalPlain] using h
+    | prom i' =>
+      simp only [evalPlain] at h ⊢
+      cases hp : promVal s i' with
+      | none => rw [hp] at h; cases h
+      | some x => rw [hp] at h; rw [promVal_settle_other s i k i' x hu hp]; exact h
+    | thunk j =>
+      simp only [evalPlain] at h ⊢
+      have : (settle s i k).thunks = s.thunks := rfl
+      rw [this]
+      cases hj : s.thunks[j]? with
+      | none => rw [hj] at h; cases h
+      | some t => rw [hj] at h; exact ih _ _ h
+    | add a b =>
+      simp only [evalPlain] at h ⊢
+      cases ha : evalPlain s f a with
+      | fuel => rw [ha] at h; cases h
+      | notReady => rw [ha] at h; cases h
+      | value x =>
+        rw [ha] at h; rw [ih a x ha]
+        simp only at h ⊢
+        cases hb : evalPlain s f b with
+        | fuel => rw [hb] at h; cases h
+        | notReady => rw [hb] at h; cases h
+        | value y => rw [hb] at h; rw [ih b y hb]; exact h
+
+/-- settling a promise bumps the epoch: every remembered give-up becomes stale, every
+remembered value stays true -/
+theorem inv_settle (s : Store) (i : Nat) (k : Int) (hu : promVal s i = none) (hI : Inv s) : Inv (settle s i k) := by
+  intro j t hj
+  have : (settle s i k).thunks = s.thunks := rfl
+  rw [this] at hj
+  obtain ⟨a, _, c⟩ := hI j t hj
+  refine ⟨?_, ?_, ?_⟩
+  · intro v hv; obtain ⟨f, hf⟩ := a v hv; exact ⟨f, plain_settle_value s i k hu f _ v hf⟩
+  · intro hne
+    have := c _ hne
+    simp [settle] at this
+    omega
+  · intro ep hep; have := c ep hep; simp [settle]; omega
+
+/-! ### every history of speculative waits and settlements -/
+
+inductive Op
+  | wait (e : E)
+  | settle (i : Nat) (k : Int)
+
+/-- one step of a run; a promise that is already settled is not settled again (the code asserts it) -/
+def step (f : Nat) (s : Store) : Op → Store
+  | .wait e => (evalMemo s f e).2
+  | .settle i k => if promVal s i = none then settle s i k else s
+
+theorem inv_step (f : Nat) (s : Store) (op : Op) (hI : Inv s) : Inv (step f s op) := by
+  cases op with
+  | wait e => exact (memo_sound f s e hI).2.1
+  | settle i k =>
+    simp only [step]
+    split
+    · rename_i hu; exact inv_settle s i k hu hI
+    · exact hI
+
+theorem inv_run (f : Nat) (s : Store) (ops : List Op) (hI : Inv s) : Inv (ops.foldl (step f) s) := by
+  induction ops generalizing s with
+  | nil => exact hI
+  | cons op rest ih => exact ih _ (inv_step f s op hI)
+
+/-- a store in which nothing is remembered yet -/
+theorem inv_fresh (ps : List (Option Int)) (bodies : List E) (ep : Nat) :
+    Inv ⟨ps, bodies.map (fun b => ⟨b, none, none⟩), ep⟩ := by
+  intro j t hj
+  simp only [List.getElem?_map] at hj
+  cases hb : bodies[j]? with
+  | none => rw [hb] at hj; cases hj
+  | some b =>
+    rw [hb] at hj; cases hj
+    exact ⟨by simp, by simp, by simp⟩
+
+/-- **after any history** of speculative waits and settlements, starting with empty memories,
+the answer of a further wait is the answer of the engine without memory on the promises as
+they now are: a number is *the* value, "not ready" means no amount of work gives a value -/
+theorem wait_after_any_history (f : Nat) (ps : List (Option Int)) (bodies : List E) (ep : Nat) (ops : List Op) (e : E) :
+    let s := ops.foldl (step f) ⟨ps, bodies.map (fun b => ⟨b, none, none⟩), ep⟩
+    (∀ k, (evalMemo s f e).1 = .value k → ∃ g, evalPlain s g e = .value k) ∧
+    ((evalMemo s f e).1 = .notReady → NoValue s e) := by
+  intro s
+  have hI : Inv s := inv_run f _ ops (inv_fresh ps bodies ep)
+  exact ⟨(memo_sound f s e hI).2.2.1, (memo_sound f s e hI).2.2.2⟩
+
+/-- … and a number answered once is answered ever after, whatever is settled in between -/
+theorem answer_is_final (f : Nat) (s : Store) (hI : Inv s) (e : E) (v : Int) (h : (evalMemo s f e).1 = .value v)
+    (i : Nat) (k : Int) (hu : promVal (evalMemo s f e).2 i = none) (f' : Nat) (w : Int)
+    (h' : (evalMemo (settle (evalMemo s f e).2 i k) f' e).1 = .value w) : w = v := by
+  obtain ⟨hs, hI1, hv, _⟩ := memo_sound f s e hI
+  obtain ⟨g, hg⟩ := hv v h
+  have hg1 : evalPlain (evalMemo s f e).2 g e = .value v := by rw [plain_same hs]; exact hg
+  have hg2 := plain_settle_value _ i k hu g e v hg1
+  obtain ⟨_, _, hv2, _⟩ := memo_sound f' _ e (inv_settle _ i k hu hI1)
+  obtain ⟨g', hg'⟩ := hv2 w h'
+  have := plain_unique _ g g' e _ _ hg2 hg' (by simp) (by simp)
+  cases this; rfl
+
+/-! non-vacuity: thunk 1 = thunk 0 + 5, thunk 0 = promise 0 + 1; a give-up is remembered, becomes
+stale when the promise is settled, and the value is then found and remembered -/
+example :
+    let s0 : Store := ⟨[none], [⟨.add (.prom 0) (.lit 1), none, none⟩, ⟨.add (.thunk 0) (.lit 5), none, none⟩], 7⟩
+    let r1 := evalMemo s0 9 (.thunk 1)
+    let s2 := settle r1.2 0 10
+    let r3 := evalMemo s2 9 (.thunk 1)
+    r1.1 = .notReady ∧ (r1.2.thunks.map (·.nrEpoch)) = [some 7, some 7] ∧
+    (evalMemo r1.2 9 (.thunk 1)).1 = .notReady ∧
+    r3.1 = .value 16 ∧ (r3.2.thunks.map (·.value)) = [some 11, some 16] := by decide
+
+end Pdpy11.Props.C03.Memo
